@@ -257,6 +257,10 @@ theorem stored3 (S : Setup fn δ v mn mx) (ops : List (α × V3 R)) (hops : ∀ 
 
 /-! ### neighbourhood queries miss nothing within one voxel size -/
 
+/-- **floor_adjacent**: coordinates at most one voxel size apart fall in the same or in adjacent slabs -/
+theorem floor_adjacent (x y : R) (hv : 0 < v) (h : |x - y| ≤ v) : |⌊x / v⌋ - ⌊y / v⌋| ≤ 1 :=
+  Grid.floor_adjacent x y v hv h
+
 /-- the indices of two points at most one voxel size apart on an axis differ by at most one on that axis -/
 theorem index_adjacent (S : Setup fn δ v mn mx) (d : Dims R) (hd : d.v = v) {s q : V3 R}
     (hx : |q.x - s.x| ≤ v) (hy : |q.y - s.y| ≤ v) (hz : |q.z - s.z| ≤ v) :
